@@ -172,6 +172,51 @@ def run(ctx):
                             res.case(case); res.traces += 1
                             if r[0] != "raised" or snap.get("in" + ext) != data:
                                 res.violation(case, "output could not be opened for writing but the input was touched / no error", impl=repr(r))
+        # serializations of exactly 4096 … 196608 characters: a save that fails after the backup must leave a complete backup,
+        # whatever block size a writer uses ------------------------------------------------------------
+        marks = c05.MARKS if ctx.thorough or ctx.widen else c05.MARKS[:6]
+        for mi, mark in enumerate(marks):
+            ext = (".sm", ".ssc")[(mi + ctx.seed) % 2]
+            kind = rng.choice(["native", "memory"]); outn = rng.choice([None, "out" + ext]); bakn = "in.bak"
+            data, _, text = c05.exact_file(rng, ext, mark)
+            detected = next(e for e in c05.DEFAULT_ENCODINGS if c05.decodes(data, e))
+            cls = simfile.sm.SMSimfile if ext == ".sm" else simfile.ssc.SSCSimfile
+            s0 = cls(string=data.decode(detected))
+            files = {"in" + ext: data, "other.txt": b"bystander"}
+            base_case = {"fs": kind, "ext": ext, "bytes": data[:120].decode("latin-1") + "…", "exact_length": mark, "detected": detected, "output": outn, "backup": bakn}
+
+            def do2(w, keep_length):
+                try:
+                    with simfile.mutate(w.path("in" + ext), output_filename=w.path(outn) if outn else None, backup_filename=w.path(bakn), filesystem=w.fs) as sf:
+                        sf["TITLE"] = "edited"
+                        if keep_length and not c05.pad_to(rng, sf, mark, detected): raise simfile.CancelMutation
+                    return ("returned", None)
+                except BaseException as e:
+                    return ("raised", e)
+            for keep_length in (True, False):
+                w = world(kind, files); st = rng.getstate()
+                r = do2(w, keep_length); good = w.snapshot(); n_calls = w.rec.wcalls; w.close()
+                case = dict(base_case, output_has_the_same_length=keep_length)
+                if r[0] != "returned" or good.get(bakn) is None:
+                    res.violation(case, "fault-free mutate failed on an exact-length file", impl=repr(r[1])); continue
+                exp = objs.dump(s0) if ext == ".sm" else c02.notes_last(objs.dump(s0))
+                if objs.dump(cls(string=good[bakn].decode(detected))) != exp:
+                    res.violation(case, "the backup of an exact-length file does not parse to the original simfile", impl=len(good[bakn])); continue
+                for k in range(n_calls):
+                    rec = fstools.Recorder(fail_at=k)
+                    w = world(kind, files, rec); rng.setstate(st)
+                    r = do2(w, keep_length); snap = w.snapshot(); w.close()
+                    fcase = dict(case, fault_at=k)
+                    res.case(fcase, nontrivial=k >= 3); res.traces += 1; res.count("exact_length_fault")
+                    if r[0] != "raised" or not isinstance(r[1], fstools.Fault):
+                        res.violation(fcase, "the injected filesystem failure did not propagate", impl=repr(r)); continue
+                    inp = snap.get("in" + ext)
+                    complete = snap.get(bakn) == good[bakn]
+                    if inp != data and not complete:
+                        res.violation(fcase, "a backup was asked for, saving failed, and neither the input nor a complete backup holds the original"); continue
+                    if k >= 3 and not complete:
+                        res.violation(fcase, "saving failed after the backup had been written, but the backup is not complete",
+                                      impl={"backup_bytes": len(snap.get(bakn) or b""), "expected": len(good[bakn])}); continue
     finally:
         shutil.rmtree(tmp, ignore_errors=True)
     resp = ctx.lean.eval_sharded(reqs)
